@@ -53,21 +53,23 @@ type Violation struct {
 }
 
 type Stats struct {
-	Scenario  string
-	Execs     int64
-	Steps     int64
-	States    int64
-	Pruned    int64
-	MaxPoints int
-	Outcomes  map[string]int64
-	Complete  bool
-	Horizon   int64
-	Leaked    int64
-	PBound    int
-	DBound    int
-	Viol      []Violation
-	Sample    []string
-	Err       string
+	Scenario   string
+	Execs      int64
+	Steps      int64
+	States     int64
+	Pruned     int64
+	MaxPoints  int
+	Outcomes   map[string]int64
+	Complete   bool
+	Horizon    int64
+	Leaked     int64
+	PBound     int
+	DBound     int
+	CompletedP int   // Iterative: largest preemption bound fully explored
+	LastExecs  int64 // Iterative: executions of the last bound run
+	Viol       []Violation
+	Sample     []string
+	Err        string
 }
 
 func (s *Stats) Merge(o *Stats) {
@@ -317,13 +319,92 @@ func Local(sc *Scenario, opt Options, roots [][]int) *Stats {
 	return st
 }
 
+// Iterative explores with preemption bounds 0, 1, ..., opt.PBound in turn
+// (each a complete exploration), stopping at the first bound that exposes a
+// violation or does not finish in time. CompletedP is the largest bound
+// fully explored (-1: none).
+func Iterative(sc *Scenario, opt Options) *Stats {
+	total := &Stats{Scenario: sc.Name, Outcomes: map[string]int64{}, Complete: true, DBound: opt.DBound, CompletedP: -1}
+	for pb := 0; pb <= opt.PBound; pb++ {
+		o := opt
+		o.PBound = pb
+		st := Local(sc, o, nil)
+		total.Execs += st.Execs
+		total.Steps += st.Steps
+		total.Pruned += st.Pruned
+		total.Horizon += st.Horizon
+		total.Leaked += st.Leaked
+		total.States = st.States
+		total.Outcomes = st.Outcomes
+		total.Sample = st.Sample
+		total.LastExecs = st.Execs
+		if st.MaxPoints > total.MaxPoints {
+			total.MaxPoints = st.MaxPoints
+		}
+		total.Err = st.Err
+		for _, v := range st.Viol {
+			dup := false
+			for _, w := range total.Viol {
+				if w.Sig == v.Sig {
+					dup = true
+				}
+			}
+			if !dup {
+				total.Viol = append(total.Viol, v)
+			}
+		}
+		if st.Err != "" || !st.Complete {
+			total.Complete = false
+			break
+		}
+		total.CompletedP = pb
+		total.PBound = pb
+		if len(st.Viol) > 0 {
+			break
+		}
+	}
+	return total
+}
+
+// RunMany explores every scenario in its own worker process (iterative
+// preemption bounding, one happens-before cache per scenario), at most
+// `workers` at a time, and returns the results in order.
+func RunMany(prop string, scs []*Scenario, opt Options, workers int) []*Stats {
+	out := make([]*Stats, len(scs))
+	jobs := make(chan int)
+	var wg sync.WaitGroup
+	if workers < 1 {
+		workers = 1
+	}
+	for w := 0; w < workers; w++ {
+		wg.Add(1)
+		go func() {
+			defer wg.Done()
+			for i := range jobs {
+				st, err := runWorker(workerReq{Prop: prop, Scenario: scs[i].Name, Opt: opt, Iterative: true})
+				if err != nil {
+					st = &Stats{Scenario: scs[i].Name, Err: err.Error(), CompletedP: -1}
+				}
+				out[i] = st
+			}
+		}()
+	}
+	for i := range scs {
+		jobs <- i
+	}
+	close(jobs)
+	wg.Wait()
+	return out
+}
+
 // ---- sharding over worker processes ----
 
 type workerReq struct {
-	Prop     string
-	Scenario string
-	Opt      Options
-	Roots    [][]int
+	Prop      string
+	Scenario  string
+	Opt       Options
+	Roots     [][]int
+	Iterative bool // run preemption bounds 0..Opt.PBound in turn
 }
 
 // WorkerMain is the entry point of a worker process: it reads one request
@@ -339,7 +420,12 @@ func WorkerMain(lookup func(prop, name string) *Scenario) {
 		fmt.Fprintln(os.Stderr, "worker: unknown scenario", req.Scenario)
 		os.Exit(2)
 	}
-	st := Local(sc, req.Opt, req.Roots)
+	var st *Stats
+	if req.Iterative {
+		st = Iterative(sc, req.Opt)
+	} else {
+		st = Local(sc, req.Opt, req.Roots)
+	}
 	json.NewEncoder(os.Stdout).Encode(st)
 }
 
@@ -401,7 +487,7 @@ func Parallel(prop string, sc *Scenario, opt Options, workers int) *Stats {
 
 func runWorker(req workerReq) (*Stats, error) {
 	cmd := exec.Command(os.Args[0], "-worker")
-	cmd.Env = append(os.Environ(), "GOMAXPROCS=2")
+	cmd.Env = append(os.Environ(), "GOMAXPROCS=1", "GOGC=800")
 	in, _ := json.Marshal(req)
 	cmd.Stdin = strings.NewReader(string(in))
 	cmd.Stderr = os.Stderr
